@@ -1,4 +1,143 @@
+#![allow(dead_code, unused_imports, clippy::all)]
 //! cv -- property-based verification harness for chumsky (see /verif/DESIGN.md).
+pub mod build;
+pub mod build_a;
+pub mod build_b;
+pub mod build_c;
+pub mod build_d;
+pub mod build_e;
+pub mod compare;
+pub mod driver;
+pub mod gen;
+pub mod grammar;
+pub mod props;
+pub mod reference;
+pub mod run;
+pub mod val;
+pub mod worker;
+pub mod fuzz;
+
+use driver::{seed_from_env, Case, Local, Tier};
+
+fn usage() -> ! {
+    eprintln!("usage: cv check <ID> [quick|thorough] | cv replay <path> | cv show <path>");
+    std::process::exit(2)
+}
+
+type CheckFn = fn(&Case, &mut Local) -> Result<(), driver::Fail>;
+type RunFn = fn(Tier, u64) -> i32;
+
+fn table(id: &str) -> Option<(RunFn, CheckFn)> {
+    match id {
+        "C01" => Some((props::c01::run, props::c01::check_case)),
+        "C02" => Some((props::c02::run, props::c02::check_case)),
+        "C03" => Some((props::c03::run, props::c03::check_case)),
+        "C04" => Some((props::c04::run, props::c04::check_case)),
+        "C05" => Some((props::c05::run, props::c05::check_case)),
+        "C06" => Some((props::c06::run, props::c06::check_case)),
+        "C07" => Some((props::c07::run, props::c07::check_case)),
+        "C08" => Some((props::c08::run, props::c08::check_case)),
+        "C09" => Some((props::c09::run, props::c09::check_case)),
+        "C10" => Some((props::c10::run, props::c10::check_case)),
+        "C11" => Some((props::c11::run, props::c11::check_case)),
+        "C12" => Some((props::c12::run, props::c12::check_case)),
+        "C13" => Some((props::c13::run, props::c13::check_case)),
+        "C14" => Some((props::c14::run, props::c14::check_case)),
+        "C15" => Some((props::c15::run, props::c15::check_case)),
+        "C19" => Some((props::c19::run, props::c19::check_case)),
+        "C20" => Some((props::c20::run, props::c20::check_case)),
+        "C16" => Some((props::c16::run, props::c16::check_case)),
+        "C17" => Some((props::c17::run, props::c17::check_case)),
+        "C18" => Some((props::c18::run, props::c18::check_case)),
+        _ => None,
+    }
+}
+fn dispatch_check(id: &str) -> Option<CheckFn> {
+    table(id).map(|t| t.1)
+}
+
 fn main() {
-    cv::cli_main()
+    run::install_panic_hook();
+    let args: Vec<String> = std::env::args().collect();
+    if args.len() < 3 {
+        usage();
+    }
+    match args[1].as_str() {
+        "check" => {
+            let id = args[2].as_str();
+            let tier = match args.get(3).map(|s| s.as_str()).or(std::env::var("VERIF_TIER").ok().as_deref()) {
+                Some("thorough") => Tier::Thorough,
+                _ => Tier::Quick,
+            };
+            let seed = seed_from_env();
+            let code = match table(id) {
+                Some((run, _)) => run(tier, seed),
+                None => {
+                    eprintln!("unknown property {}", id);
+                    2
+                }
+            };
+            std::process::exit(code);
+        }
+        "worker" => {
+            let a: Vec<&str> = args[2..].iter().map(|s| s.as_str()).collect();
+            let num = |i: usize| a.get(i).and_then(|x| x.parse::<u64>().ok()).unwrap_or(0);
+            let code = match a[0] {
+                "leftrec" => props::c11::leftrec_worker(num(1) as usize, num(2), num(3)),
+                "c20run" => props::c20::run_inner(if a[1] == "thorough" { Tier::Thorough } else { Tier::Quick }, num(2)),
+                "depth" => props::c12::depth_worker(a[1], a[2], a[3], num(4) as usize, num(5) == 1),
+                _ => 2,
+            };
+            std::process::exit(code);
+        }
+        "fuzznote" => {
+            // merge the outcome of the coverage-guided campaign into the evidence file of this run
+            let path = driver::verif_root().join("evidence").join(format!("{}.json", args[2]));
+            let mut ev: serde_json::Value = serde_json::from_str(&std::fs::read_to_string(&path).expect("evidence file")).expect("evidence json");
+            let note: serde_json::Value = serde_json::from_str(args.get(3).map(|s| s.as_str()).unwrap_or("{}")).expect("note json");
+            ev["coverage"]["coverage_guided"] = note;
+            std::fs::write(&path, serde_json::to_string_pretty(&ev).unwrap() + "\n").expect("cannot write evidence");
+        }
+        "replay" => {
+            let bytes = std::fs::read(&args[2]).expect("cannot read replay file");
+            let parsed = std::str::from_utf8(&bytes).ok().and_then(|s| serde_json::from_str::<Case>(s).ok());
+            let Some(case) = parsed else {
+                // a raw libFuzzer artifact (replays/<ID>/fuzz-*): run it through the fuzz entry point
+                let id = std::path::Path::new(&args[2]).parent().and_then(|p| p.file_name()).and_then(|n| n.to_str()).unwrap_or("").to_string();
+                if std::env::var("CV_FUZZ_ONLY").is_err() {
+                    std::env::set_var("CV_FUZZ_ONLY", &id);
+                }
+                println!("replaying a raw coverage-guided input of {} ({} bytes)", id, bytes.len());
+                let r = run::quietly(|| fuzz::fuzz_entry(&bytes));
+                if r.is_err() {
+                    println!("VIOLATION property={} replay={}", id, args[2]);
+                    std::process::exit(1)
+                }
+                println!("property held on this input (note: memory errors need the ASan build: harness/fuzz)");
+                std::process::exit(0)
+            };
+            let s = String::new();
+            let _ = s;
+            let Some(f) = dispatch_check(&case.prop) else {
+                eprintln!("unknown property {}", case.prop);
+                std::process::exit(2)
+            };
+            let mut l = Local::default();
+            println!("replaying {} ({}): {}", case.prop, case.sub, grammar::render(&case.g));
+            println!("  input: {:?}", case.input);
+            match f(&case, &mut l) {
+                Ok(()) => {
+                    println!("property held on this case");
+                    std::process::exit(0)
+                }
+                Err(fail) => {
+                    println!("  why: {}", fail.msg);
+                    println!("  sig: {}", fail.sig);
+                    println!("VIOLATION property={} replay={}", case.prop, args[2]);
+                    std::process::exit(1)
+                }
+            }
+        }
+        _ => usage(),
+    }
 }
